@@ -68,6 +68,10 @@ var slices = []sliceSpec{
 	{"x/storage/keeper/msg_server_post_file.go", "PostFile", "days"},
 	{"x/storage/keeper/msg_server_post_file.go", "PostFile", "storageProviderCut"},
 	{"x/jklmint/keeper/mint.go", "BlockMint", "bpy"},
+	{"x/storage/keeper/msg_server_buy_storage.go", "BuyStorage", "hours"},
+	{"x/storage/keeper/msg_server_buy_storage.go", "UpgradeStorage", "proratedDurationInHour"},
+	{"x/storage/keeper/msg_server_buy_storage.go", "UpgradeStorage", "currentGbs"},
+	{"x/storage/keeper/msg_server_buy_storage.go", "UpgradeStorage", "price"},
 }
 
 type tr struct {
